@@ -31,13 +31,13 @@ THEOREMS = {
             "Codec.C04_decode_encode", "Codec.C04_bytes_determine_view", "Codec.C04_framing",
             "Codec.C04_sanitize_spec", "Codec.C04_sanitize_id", "Codec.C04_sanitize_length", "Codec.C04_text_partial",
             "Codec.sizePass_spec", "Codec.encode_spec", "Codec.decode_spec",
-            "Obligations.codec_extraction_complete", "Obligations.codec_cache_geometry", "Obligations.codec_kinds_ok",
+            "Obligations.codec_extraction_complete", "Obligations.codec_cache_elem", "Obligations.codec_kinds_ok",
             "Obligations.codec_kind_names", "Obligations.codec_fast_traits", "Obligations.codec_framing_consistent",
             "Obligations.codec_clear_rule", "Obligations.codec_escape_format", "Obligations.codec_events",
             "Obligations.codec_user_codecs", "Obligations.C04_extracted"],
     "C11": ["Codec.C11_events_exact", "Codec.C11_cache_growth_iff", "Codec.C11_queue_growth_iff", "Codec.C11_no_events", "Codec.C11_steady_state",
             "Codec.C11_formatter_calls", "Codec.C11_deferred_no_format",
-            "Obligations.codec_extraction_complete", "Obligations.codec_cache_geometry",
+            "Obligations.codec_extraction_complete", "Obligations.alloc_cache_geometry",
             "Codec.C11_map_pair_temporary_allocates", "Codec.C11_listed_of_no_pair_temporaries",
             "Obligations.alloc_inline_capacity", "Obligations.alloc_formatter_sites", "Obligations.C11_extracted",
             "Obligations.alloc_no_pair_temporaries", "Obligations.C11_maps_listed", "Obligations.C11_no_events_maps"],
